@@ -48,6 +48,7 @@ KINDS = {
     "loop-error": "no exception escapes to the event loop",
     "holding-mismatch": "_holding_locks / _waiting_on equal the locks the task is inside / waits for",
     "bad-release": "release() by a task that does not hold the lock is refused and changes nothing",
+    "dead-entry": "every entry of a lock's wait queue belongs to a task that is suspended in that acquire()",
 }
 THEOREM = {
     "mutual-exclusion": "Asynkit.C13.mutual_exclusion",
@@ -57,10 +58,11 @@ THEOREM = {
     "unclean-quiescence": "Asynkit.C13.quiescent_clean",
     "holding-mismatch": "Asynkit.C13.holding_waiting_consistent",
     "bad-release": "Asynkit.C13.refused_release_changes_nothing",
+    "dead-entry": "Asynkit.C13.holding_waiting_consistent",
 }
 NONTRIVIAL = {"fault-while-waiting", "fault-woken-not-run", "fault-while-holding", "throw-refused",
               "handover-by-giveup", "handover-contended", "release-by-non-holder-while-held",
-              "ready-entry-made-positional-woken-lock-waiter"}
+              "ready-entry-made-positional-woken-lock-waiter", "acquire-raises-on-lock-order-cycle"}
 
 
 def exhaustive(maxn):
@@ -93,8 +95,11 @@ def run(ctx):
     n = 30000 if ctx.thorough() else 3000
     def one():
         g = rng.random()
-        return S.gen_case(rng, "C13") if g < 0.57 else (S.gen_inflight_case(rng) if g < 0.95
-                                                         else S.gen_positional_case(rng))
+        if g < 0.55:
+            return S.gen_case(rng, "C13")
+        if g < 0.90:
+            return S.gen_inflight_case(rng)
+        return S.gen_positional_case(rng) if g < 0.95 else S.gen_cycle_case(rng)
     cases = [one() for _ in range(n)]
     runs = S.explore(ctx, cases, KINDS, THEOREM, nontrivial=NONTRIVIAL)
     for c in cases[:2]:
